@@ -235,10 +235,10 @@ def run_cfg(ctx, p, cfg):
             rng0 = [x for x in walk(c.arg(1)) if x[0] == "agg" and x[1].endswith("::Range")]
             end0 = deep_strip(dict(rng0[0][3])["end"]) if rng0 else None
             for sb, si, al in n.conditions(c.block):
-                labs = {si.label(x) for x, _ in al}
-                z = q.zero_test(si, end0) if end0 is not None else None
-                if z is not None and labs in ({True}, {False}):
-                    gate.append(({True} if labs == {not z} else {False}, end0))
+                # `if max > 0 { .. }` and `match max { 0 => .., m => .. }` alike: the edge on which the bound is not zero
+                ze = q.zero_edges(si, end0) if end0 is not None else None
+                if ze is not None:
+                    gate.append(({True} if {t_ for _, t_ in al} == {ze[1]} else {False}, end0))
             r.require(len(gate) == 1 and gate[0][0] == {True}, "only-when-delay-positive", fn=n, site=c.at, detail="gen_range is control-dependent on max_random_delay being non-zero (> 0)")
             rng = [x for x in walk(c.arg(1)) if x[0] == "agg" and x[1].endswith("::Range")]
             okr = bool(rng) and deep_strip(dict(rng[0][3])["start"]) == ("const", "int", 0) and gate and deep_strip(dict(rng[0][3])["end"]) == gate[0][1]
